@@ -38,6 +38,32 @@ def run(v, tier, seed, replay=None):
                 v.violation('C12:bound', 'peak live heap while reading %d objects is %d bytes, above the bound %d that holds for any file length ("%s": objects of %d bytes, containers of %d)' % (n, p, allowed, name, ob, cs),
                             {'scenario': name, 'peaks': pk, 'bound': allowed})
                 break
+    # files the library's writer does not produce: long runs of unknown-type objects (a log of a newer tool) — every container
+    # of the run used to stay in memory until the next known object
+    import struct
+    from .. import filerun
+    mexe = common.build_model_driver()
+    can = bytes.fromhex(codec.run_model(mexe, ['W 24 6144=1 6147=5'])[0].split(' ')[2])
+    unk = b'LOBJ' + struct.pack('<HHII', 16, 1, 64, 0x7777) + bytes(48)
+    ub = 2000 if tier == 'quick' else 8000
+    upk = []
+    for n in (ub, 8 * ub):
+        stream = unk * n + can
+        data = filerun.file_of([filerun.wrap_container(stream[i:i + 4096], 0) for i in range(0, len(stream), 4096)])
+        o = sessrun.run_impl(plain, ['FU 0 ' + data.hex()])[0]
+        if not o.startswith('FU ok'):
+            nbad += 1
+            v.violation('C12:run', 'memory scenario "run of unknown-type objects" (%d objects): %s' % (n, o[:80]), {'scenario': 'FU, %d unknown objects of 64 bytes in 4096-byte containers' % n, 'implementation': o[:200]})
+            continue
+        p = int(o.split('peak=')[1])
+        upk.append((n, p))
+        allowed = 2 * (0x20000 + 3 * 4096) + 12 * 64 + 200000
+        if p > allowed:
+            nbad += 1
+            v.violation('C12:bound:unknown-run', 'peak live heap while reading a run of %d unknown-type objects (%d bytes of file) is %d bytes, above the bound %d that holds for any file length' % (n, len(data), p, allowed),
+                        {'scenario': 'FU: %d objects of unknown type 0x7777, 64 bytes each, then one CanMessage; method-0 containers of 4096 bytes' % n, 'peaks': upk, 'bound': allowed})
+            break
+    peaks['run of unknown-type objects'] = [(n, p, 64, 4096) for n, p in upk]
     # write sessions with a producer slower than the workers (the stream drains completely between objects)
     wl = []
     for nobj, ob, cs in ((150, 5000, 4096), (600, 5000, 4096), (600, 5000, 0x20000)) if tier == 'quick' else ((150, 5000, 4096), (600, 5000, 4096), (2400, 5000, 4096), (600, 5000, 0x20000), (2400, 300, 100)):
@@ -88,7 +114,7 @@ def run(v, tier, seed, replay=None):
         'rule': 'files of N and 4N objects are written by the library and read back with a consumer that pauses every 8 objects; the live-heap high-water mark (replaced operator new/delete) during reading is compared: it may differ by allocator noise and a couple of containers, not in proportion to N. Scenarios: objects spanning several containers, many objects per container, containers larger than the construction-time buffer, tiny containers. Non-trivial = distinct scenario.',
         'peaks': {k: [(n, p) for n, p, _, _ in vv] for k, vv in peaks.items()}, 'write_session_peaks': wpeaks, 'failures': nbad,
         'samples': lines[:3],
-        'theorems': ['C12_write_bounded', 'C12_read_bounded', 'C12_drop_leaves_less_than_a_container'],
+        'theorems': ['C12_write_bounded', 'C12_read_bounded', 'C12_drop_leaves_less_than_a_container', 'C12_parser_drops_on_every_path'],
     })
     v.assumptions += ['the theorems bound logical bytes / objects held; allocator slack and std::vector capacity are only measured']
     return 'proof'
